@@ -253,10 +253,13 @@ class LibHarness(Harness):
             raise Unsupported('parser stub: unknown content token %r' % tok)
         return clone_val(self.cur_docs[tok][1])
 
-    def new_token(self, spec, h, counter):
+    def new_token(self, spec, h, counter, text=None):
+        start = counter[0]
         n, v = mk_doc(h, spec, counter)
-        tok = 'DOC%d' % len(self.cur_docs) if spec else ''        # the text of an empty document is the empty string
+        tok = text if text is not None else ('DOC%d' % len(self.cur_docs) if spec else '')        # the text of an empty document is the empty string
         self.cur_docs[tok] = (n, v, spec)
+        if not hasattr(self, 'tok_start'): self.tok_start = {}
+        self.tok_start[tok] = start
         return tok
 
     def observe(self, ex, g, texts, line):
@@ -342,10 +345,16 @@ class LibHarness(Harness):
             if self.mode == 'meta':
                 key = [upd, oth][ctx.choose(2)] if step else upd
                 spec = ([('M', 'title: y\n')] if ctx.choose(2) else []) + [('P',)]
-            elif step == 0 and ctx.choose(2) == 1:
+            elif step == 0 and (first := ctx.choose(3)) == 1:
                 key = 'c'           # a brand-new note arrives through the edit path (didChange / didSave of a new file)
                 menu_c = [[('P',)], [('H',), ('R', upd)], [('R', 'zz')]]
                 spec = menu_c[ctx.choose(len(menu_c))]
+            elif step == 0 and first == 2:
+                # a whitespace-only edit: the same words, one blank line inserted at the top (every line moves)
+                key = upd
+                spec = [('B',)] + [b for b in old_spec]
+                ws_text = '\n' + texts[upd]
+                ctx.cover('whitespace-only-edit')
             elif step == 0:
                 key = upd
                 spec = gen_doc_spec(ctx, targets[:2] if quick else targets, 2, not quick, small_tail=quick)
@@ -353,7 +362,10 @@ class LibHarness(Harness):
                 kind = ctx.choose(3)            # edit the same note again, edit the other, insert a new note
                 key = [upd, oth, 'c'][kind]
                 spec = gen_doc_spec(ctx, targets[:2], 1, False)
-            tok = self.new_token(spec, h, counter)
+            if step == 0 and self.mode != 'meta' and first == 2:
+                tok = self.new_token(spec, h, [self.tok_start[texts[upd]]], text=ws_text)
+            else:
+                tok = self.new_token(spec, h, counter)
             before = arena_std(g)
             ex.call('Database::update_document', [dbref, h.key(key), tok])
             g = db.get('graph')
